@@ -8,7 +8,8 @@ Relational obligations on the real code (two symbolic executions compared byte f
   promotion                           values.add/sub/mul/div call the arithmetic of the wider
                                       operand type on exactly the promoted operands (modular:
                                       Float.iadd/isub/imul/idiv replaced by recording stubs)
-x/1 = x is covered by the bounded division stand-in (see C04: the long-division loop).
+x/1 = x bit for bit is proved from the exact power-of-two contract of Float._div_den (loop invariant, task in C04
+                                      re-run here).
 """
 
 from .common import *
@@ -228,6 +229,8 @@ def _dch(p):
 _KINDS = ['int', 'sng', 'dbl']
 
 TASKS = [
+    Task('x / 1 = x', c04.t_div_by_one, cases=[{'kind': k} for k in c04.CLS]),
+    Task('Float._div_den (power of two divisor, loop invariant)', c04.t_div_den, cases=[{'kind': k, 'power_of_two': True} for k in c04.CLS], timeout_ms=60000),
     Task('x+y = y+x (single)', t_add_comm, cases=[{'kind': 'sng', 'dlo': a, 'dhi': b} for a, b in _dch(24)],
          covers=('raises', 'returns')),
     Task('x+y = y+x (double)', t_add_comm, covers=('raises', 'returns'),
@@ -251,4 +254,4 @@ ASSUMPTIONS = [
     'x*y = y*x: Float._denormalise by its contract (C04), product of mantissas as a shared atom',
     'integer operands of + - * / and of unary minus / ABS are computed in single precision (as the code does and C18 states)',
 ]
-NOT_COVERED = ['x/1 = x: only through the bounded division stand-in of C04']
+NOT_COVERED = []
